@@ -99,8 +99,13 @@ def run(tier, seed):
                        "the code on the same grid",
                        "C08_generated_merkletree_seq / C08_generated_merkletree_avx_is_tree: for rows = 2^k (k <= 48), rows*cols*dim < 2^64 "
                        "and fuel > rows, cols*dim the translated builder returns Model.merkleTree (leaf = sponge over the translated "
-                       "permutation, node = translated hash) in the first 4(2 rows - 1) words and writes nothing else; the AVX512 / "
-                       "batched builders and the default wrappers are translated and executed, without a bridge theorem"]
+                       "permutation, node = translated hash) in the first 4(2 rows - 1) words and writes nothing else",
+                       "C08_generated_merkletree_batch_seq / _batch_avx: the same with leaf = Model.batchLeaf (batch_size >= 1, "
+                       "cols + batch_size < 2^62, fuel > 4(cols+1)); C08_generated_merkletree_avx512 / _batch_avx512 / _default / "
+                       "_batch_default (the wrappers call the AVX512 builders in this build): the leaf level is the pair digests "
+                       "linearHash512 perm512List (row_2m ++ row_2m+1) (rows = 1: the one-state digest), then the same pairwise levels; "
+                       "that the pair digests are the two one-row sponges (i.e. Model.merkleTree) is proved under the bit-for-bit "
+                       "interleaving hypothesis on the translated two-state permutation only (C06 has it at field level): *_is_tree"]
     st = run_gen()
     standard_proof_phase(res, MODULE, "C08_", st, ["PosScalar", "PosAvx2", "PosAvx512", "LinearHashGen", "MerkleGen"], thorough=(tier == "thorough"))
     drv, err = build_driver()
